@@ -418,6 +418,16 @@ def check_property(prop, tier="quick", tree="/repo", record=False, jobs=None, le
     limits = [r for r in limits if r not in by_monitor]
     for r in by_monitor:
         standin[(r["qualname"], r["variant"])] = f"{r['limit']}; decided by the generator run-time monitor"
+    # loader leaf functions out of reach (also in their own literal-size mode): the concrete-structured whole-loader tasks
+    # of this check execute the real leaf code inlined; if every one of them finished, they decide (bounded)
+    for r in list(limits):
+        sc_ = getattr(REG.contracts[r["qualname"]], "standin_contract", None)
+        if sc_ is None:
+            continue
+        own = [x for x in resB if x["qualname"] == sc_]
+        if own and all(not x["error"] and not x["limit"] for x in own):
+            limits.remove(r)
+            standin[(r["qualname"], r["variant"])] = f"{r['limit']}; decided by the bounded tasks of {sc_.split('.')[-2]}.{sc_.split('.')[-1]}"
     D_rt = {f"{r['qualname']}[{r['variant']}]": r["rt_fallback"] for r in resB if r.get("rt_fallback")}
     # ---- aggregate mode A by obligation name
     agg = {}
